@@ -3,6 +3,14 @@ import json, os
 V = os.path.dirname(os.path.dirname(os.path.abspath(__file__)))
 TB = 'Trusted: Coq 8.16.1 kernel + vm_compute (no native_compute), tools/translate (ast -> coq/Gen, fail-closed), ExtrOcamlBasic extraction + ocamlopt, the correspondence harness and CPython 3.12.1. '
 CHECKS = {
+ 'C01': dict(
+   text='Theorems over the regenerated class world and call graph: for EVERY tag string outside the 12 core tags SafeLoader/CSafeLoader dispatch to construct_undefined and BaseLoader/CBaseLoader to the node-kind default (all strings, via the effective tables computed from the regenerated import-time registration program and the dispatch block checked against its normal form); the closure of the regenerated call graph of constructor.py from the loader entry points (through the effective tables, self.*/super() edges along each MRO, `if unsafe:` branches included) reaches no name-resolving or instantiating method and makes no __import__/getattr-on-named/setattr/eval/dynamic call; the C loaders inherit exactly the same constructor classes. Value-level confinement (every built object is plain, nothing is imported or called, non-core tags rejected in every nesting/alias/merge context) is decided by the construct correspondence and by a direct run of all four safe/base loader classes under audit and profile hooks over the whole registered tag vocabulary. FULL only-YAML-errors is refuted (converter crashes, known findings).',
+   note=TB + 'The LibYAML parsing half of CSafeLoader/CBaseLoader is observed only. Policy of allowed leaf calls is frozen in coq/Spec/Confinement.v. C-level instantiation is detected through result types.',
+   technique='Coq proof (dispatch closure over all tag strings + call-graph closure on regenerated tables) + construct correspondence + direct run under audit/profile hooks', ref='DESIGN.md section 8 C01'),
+ 'C04': dict(
+   text='Theorems over the regenerated class world and call graph: for EVERY suffix the tags python/object:, python/object/new:, python/object/apply:, python/module: dispatch to construct_undefined on FullLoader/CFullLoader (string-prefix reasoning over the regenerated exact and multi tables); an instantiating multi-constructor is effective exactly on the unsafe classes (all shipped classes enumerated); with `if unsafe:` branches dead (no reachable call site passes unsafe=) the call-graph closure of the full loaders contains no __import__, no make_python_instance/set_python_instance_state/find_python_module and no dynamic call - beyond plain data only getattr/hasattr, tuple() and complex(). Effects and the value universe are decided by a direct run of FullLoader/CFullLoader under audit + profile hooks and a sys.modules snapshot over the python/* vocabulary x dotted names.',
+   note=TB + 'The FullConstructor value semantics are not modelled (constructor model covers Safe/Base). Module __getattr__ hooks and C-level instantiation are outside what is observed except through result types.',
+   technique='Coq proof (prefix-closed dispatch + call-graph closure on regenerated tables) + direct run under audit/profile hooks', ref='DESIGN.md section 8 C04'),
  'C02': dict(
    text='Theorem (all texts over printable ASCII + the single-letter and \\xHH escapes, any length, any scanner state): what write_double_quoted writes without folding is scanned back by scan_flow_scalar to exactly the same text and consumes exactly the quoted span - the universal fallback style of the dumper. FULL round trip (value graph -> text -> value graph, all options) is NOT a theorem: it is decided by the exact correspondence of every pipeline stage (represent+serialize events, emitter text, scanner tokens, parser events, composer+constructor graphs) between the Coq model and the implementation, and by a direct dump/load run over generated value graphs x a sampled option product x all four Python/LibYAML dumper-loader pairs.',
    note=TB + 'Partial: one scalar style without folding is proved; the remaining layers rest on correspondence + direct runs. float repr/parse is CPython. LibYAML is observed only.',
